@@ -138,6 +138,16 @@ CHECKS["C12"] = dict(
     technique="translator by evaluation over the finite exporter x feature matrix + Lean 4 decide over the regenerated table + execution of both graphs on DuckDB",
 )
 
+CHECKS["C14"] = dict(
+    category="proof",
+    text="Partial by nature: no engine but DuckDB exists in the sandbox. Lean 4 theorems (Properties/C14.lean), each by decide over tables REGENERATED from the current sources by calling the real functions on their finite domains (Gen/DialectTable.lean: _date_trunc 7 dialects x 6 granularities x 3 column forms, _build_interval 7 x 5, build_symmetric_aggregate_sql 7): "
+         "every truncation fragment has the argument order its dialect requires for exactly the requested unit and expression; every INTERVAL literal has the dialect's form; the symmetric-aggregate key hash*multiplier+value fits its numeric type in DuckDB/Postgres/BigQuery/Snowflake and provably overflows in ClickHouse/Databricks/Spark (F38). "
+         "Tie: relative-date filters of compile(dialect=d) contain RelativeDateRange.parse(phrase, d). Search: compile(dialect=d) of generated single-model, join and window queries and of 15 relative-date phrases x 5 operators must parse under sqlglot(read=d) and, translated to DuckDB, return the DuckDB-dialect rows; a control translation separates transpiler limitations.",
+    design_ref="DESIGN.md §4 C14",
+    note="The dialect syntax / numeric-range specifications are written from the engines' documentation (trusted). Whole-statement validity is judged by sqlglot's parsers, equivalence by execution on DuckDB after translation, with dialect hash functions mapped to macros. One finding proved (F38).",
+    technique="Lean 4 decide over regenerated dialect-fragment tables against an explicit dialect specification + parse/transpile/execute differential with control arm",
+)
+
 CHECKS["C16"] = dict(
     category="proof",
     text="Lean 4 theorem C16_string_one_literal: for EVERY value and every continuation, the formatted string/date value lexes as exactly one string literal whose content is the value (round-trip), "
